@@ -2,6 +2,8 @@ package c38
 
 import (
 	"encoding/json"
+	"fmt"
+	"time"
 
 	"github.com/ontio/ontology-crypto/keypair"
 	"github.com/ontio/ontology/account"
@@ -251,21 +253,32 @@ func Run(c *hx.Ctx) {
 		runHist(c, h, seq, nil)
 	}
 	def := prmArr(*keypair.GetScryptParameters())
+	// time budget: if key derivation became slow everywhere (e.g. getAccount no longer uses the wallet's
+	// light parameters) stop generating instead of running into the check's timeout
+	start := time.Now()
+	budget := time.Duration(c.N(150, 3000)) * time.Second
+	over := func(stream string) bool {
+		if time.Since(start) > budget {
+			c.Note(fmt.Sprintf("time budget of %v exhausted in stream %s after %d histories", budget, stream, seq))
+			return true
+		}
+		return false
+	}
 	// main stream: wallets with light scrypt parameters, histories outside the finding classes
-	for i := 0; i < c.N(110, 1500); i++ {
+	for i := 0; i < c.N(110, 1500) && !over("light"); i++ {
 		h := hist{Stream: "light", Prm: lightParams[c.Intn(len(lightParams))], KeyTyp: randKeyTypes(c, 2+c.Intn(3))}
 		seq++
 		runHist(c, h, seq, generator(c, &h, genCfg{nOps: 3 + c.Intn(14)}))
 	}
 	// default parameters (slow key derivation): short histories with NewAccount
-	for i := 0; i < c.N(2, 10); i++ {
+	for i := 0; i < c.N(2, 10) && !over("default"); i++ {
 		h := hist{Stream: "default", Prm: def, KeyTyp: randKeyTypes(c, c.Intn(2)), MaxPwd: 2}
 		h.Ops = []opRec{{Kind: "new", Slot: -1, Label: pick(c, labelPool), KeyTyp: i % 3, Sch: validScheme(c, i%3), Pwd: pick(c, pwdPool)}}
 		seq++
 		runHist(c, h, seq, generator(c, &h, genCfg{nOps: 2 + c.Intn(2), allowNew: true, newWeight: 30}))
 	}
 	// histories that enter the finding classes (the model is faithful there too)
-	for i := 0; i < c.N(12, 120); i++ {
+	for i := 0; i < c.N(12, 120) && !over("finding"); i++ {
 		h := hist{Stream: "finding", Prm: lightParams[c.Intn(len(lightParams))], KeyTyp: randKeyTypes(c, 1+c.Intn(3))}
 		cfg := genCfg{nOps: 4 + c.Intn(10), allowDup: true, allowEmpty: true}
 		if i%6 == 0 {
@@ -275,7 +288,7 @@ func Run(c *hx.Ctx) {
 		runHist(c, h, seq, generator(c, &h, cfg))
 	}
 	// histories in which the caller breaks an obligation on imports (foreign parameters, empty password)
-	for i := 0; i < c.N(6, 60); i++ {
+	for i := 0; i < c.N(6, 60) && !over("caller-bad"); i++ {
 		h := hist{Stream: "caller-bad", Prm: lightParams[c.Intn(len(lightParams))], KeyTyp: randKeyTypes(c, 2+c.Intn(2))}
 		seq++
 		runHist(c, h, seq, generator(c, &h, genCfg{nOps: 4 + c.Intn(8), allowBadImp: true}))
